@@ -6,7 +6,7 @@ INFO = {
     "bounds": {
         "quick": "every request kind x all in-range integer fields symbolic x both suppress settings; records n in {0,1,3}; groups k in {1,2}; "
                  "widths (wa,ws) in {(1,1),(4,2),(15,15),(1,15),(15,1)}; minimal-format bands (1,1),(2,1),(3,2); one out-of-range obligation per integer field",
-        "thorough": "records n in {0,1,2,3,4,6,8}; groups k in 1..3; 24 width pairs; bands up to (15,15); client-method tie",
+        "thorough": "records n in {0,1,2,3,4,6,8}; groups k in 1..3; 24 width pairs; bands up to (15,15); client-method tie for every shape",
     },
     "stubs": ["logger.* calls stripped", "symbolic ints rendered opaquely by hex()/format() (exception messages only)"],
     "outside": ["records longer than 8 bytes / more than 3 groups (layout is position independent beyond the header)",
@@ -39,6 +39,8 @@ def _dict(d):
 def obligations(tier, scratch):
     from gallia.services.uds.core import service as S
     from spec import requests as R
+
+    quick = tier == "quick"
 
     # kinds a user can construct: registered classes + public module-level subclasses
     registered = set()
@@ -122,6 +124,56 @@ def {oname}({_sig(sh["params"])}) -> bool:
 ''')
             obs.append({"name": oname, "module_path": path, "function": oname, "cap": 240, "opaque": True,
                         "meta": {"class": cls, "shape": sh["shape"], "violated_rule": ep}})
+    # client-level tie: every UDSClient service method that builds one of the request kinds
+    import ast
+    import textwrap
+
+    from gallia.services.uds.core.client import UDSClient
+
+    methods = {}
+    for mname, fn in vars(UDSClient).items():
+        if not inspect.iscoroutinefunction(fn) or mname.startswith("_") or mname in ("request", "request_unsafe", "connect", "reconnect", "reconnect_unsafe", "send_raw"):
+            continue
+        try:
+            tree = ast.parse(textwrap.dedent(inspect.getsource(fn)))
+        except Exception:  # noqa: BLE001
+            continue
+        built = [n.func.attr for n in ast.walk(tree) if isinstance(n, ast.Call) and isinstance(n.func, ast.Attribute)
+                 and isinstance(n.func.value, ast.Name) and n.func.value.id == "service" and n.func.attr.endswith("Request")]
+        if len(built) == 1:
+            methods[mname] = (built[0], inspect.signature(fn))
+    src[0] = "from checks.c01_lib import roundtrip, refused, client_tie, B, N, SF, U, S"
+    tied, untied = set(), []
+    seen_shapes = set()
+    for sh in R.shapes(tier):
+        for mname, (cname, sig) in methods.items():
+            if cname != sh["cls"] or (mname, sh["shape"]) in seen_shapes:
+                continue
+            params = [p for p in sig.parameters.values() if p.name not in ("self", "config")]
+            fields = sh["fields"]
+            if any(p.default is inspect.Parameter.empty and p.name not in fields for p in params):
+                untied.append(mname)
+                continue
+            if quick and mname in tied and not ("bitlen" in sh.get("tags", [])):
+                continue  # quick: one shape per method (+ the computed-format shapes)
+            seen_shapes.add((mname, sh["shape"]))
+            tied.add(mname)
+            kw = "{" + ", ".join(f"{p.name!r}: {fields[p.name]}" for p in params if p.name in fields) + "}"
+            name = f"cli_{mname}_{sh['shape']}"
+            pres = _pres(sh) + sh.get("extra_pre", []) + sh.get("band_pre", [])
+            doc = "\n".join(f"    pre: {p}" for p in pres)
+            src.append(f'''
+def {name}({_sig(sh["params"])}) -> bool:
+    """
+{doc}
+    post: _
+    """
+    return client_tie({mname!r}, {kw}, {sh["expect"]})
+''')
+            obs.append({"name": name, "module_path": path, "function": name, "cap": 600, "opaque": True,
+                        "meta": {"client_method": mname, "request_class": cname, "shape": sh["shape"]}})
+    INFO["client_methods_tied"] = sorted(tied)
+    INFO["client_methods_not_tied"] = sorted(set(methods) - tied)
     with open(path, "w") as f:
         f.write("\n".join(src))
     return obs
